@@ -612,3 +612,28 @@ package dragonboat
 //@ ensures q.wf() && q.idx == 0 && q.leftInWrite == !old(q.leftInWrite)
 //@ ensures len(result) == old(q.idx) && (forall j int :: 0 <= j && j < len(result) ==> (old(q.leftInWrite) ==> result[j] == old(q.left[j])) && (!old(q.leftInWrite) ==> result[j] == old(q.right[j])))
 //@ ensures (q.leftInWrite ==> disjoint(result, q.left)) && (!q.leftInWrite ==> disjoint(result, q.right))
+
+// ---------------------------------------------------------------- accepting a proposal (C12)
+// From the property: every ACCEPTED request gets exactly one terminal result, and a refused one leaves
+// no trace. A proposal is accepted when propose returns a request: it is then registered in the table
+// under the entry's key with an empty result channel, and the entry carrying that key, the session's
+// client id, series id and acknowledged watermark sits in the input queue. When propose returns an
+// error nothing is queued and nothing stays registered under the key.
+//@ extern sync (p *Pool) Get
+//@ ensures typeof(result) == typeid(*RequestState) && as(*RequestState, result) != nil && as(*RequestState, result).aggrC == nil
+//@ extern github.com/lni/dragonboat/v4/internal/rsm GetMaxBlockSize
+//@ func preparePayload [C12]
+//@ trusted encodes the payload (compression); a pure function of its input
+//@ func (p *proposalShard) propose [C12]
+//@ noframe
+//@ nobounds
+//@ requires p.pending != nil && p.proposals != nil && p.proposals.wf() && session != nil
+//@ modifies entries(p.pending), held(p.mu), p.proposals.idx, elems(p.proposals.left), elems(p.proposals.right)
+//@ ensures result1 != nil ==> result0 == nil && p.proposals.idx == old(p.proposals.idx) && (!(key in p.pending) || (old(key in p.pending) && p.pending[key] == old(p.pending[key])))
+//@ ensures result1 == nil ==> result0 != nil && key in p.pending && p.pending[key] == result0 && result0.key == key && result0.clientID == session.ClientID && result0.seriesID == session.SeriesID
+//@ ensures result1 == nil ==> result0.CompletedC != nil && len(result0.CompletedC) == 0
+//@ ensures result1 == nil && p.ltick + timeoutTick <= MaxUint64 ==> result0.deadline == p.ltick + timeoutTick
+//@ ensures result1 == nil ==> p.proposals.idx == old(p.proposals.idx) + 1
+//@ ensures result1 == nil && p.proposals.leftInWrite ==> p.proposals.left[old(p.proposals.idx)].Key == key && p.proposals.left[old(p.proposals.idx)].ClientID == session.ClientID && p.proposals.left[old(p.proposals.idx)].SeriesID == session.SeriesID && p.proposals.left[old(p.proposals.idx)].RespondedTo == session.RespondedTo
+//@ ensures result1 == nil && !p.proposals.leftInWrite ==> p.proposals.right[old(p.proposals.idx)].Key == key && p.proposals.right[old(p.proposals.idx)].ClientID == session.ClientID && p.proposals.right[old(p.proposals.idx)].SeriesID == session.SeriesID && p.proposals.right[old(p.proposals.idx)].RespondedTo == session.RespondedTo
+//@ ensures forall k uint64 :: k != key ==> (k in p.pending) == old(k in p.pending) && p.pending[k] == old(p.pending[k])
